@@ -210,6 +210,8 @@ def _run(case, scratch):
     except Exception as exc:
         raise env.HarnessError("foreign dictionary: %s" % exc)
     renderings = [("json-compact", "JSON", json.dumps(fd, sort_keys=True)),
+                  ("json-without-empty-lists", "JSON", json.dumps(_drop_empty_lists(fd))),
+                  ("yaml-without-empty-lists", "YAML", yaml.safe_dump(_drop_empty_lists(fd), default_flow_style=False)),
                   ("yaml-flow", "YAML", yaml.safe_dump(fd, default_flow_style=True, sort_keys=True)),
                   ("yaml-block-reversed", "YAML", yaml.safe_dump(_reversed_keys(fd), default_flow_style=False, sort_keys=False))]
     for name, fmt, text in renderings:
@@ -242,6 +244,15 @@ def _run(case, scratch):
     return {"failures": fails, "outcomes": ["round-trip"], "nontrivial": int(nontrivial), "execs": max(execs, 1)}
 
 
+def _drop_empty_lists(d):
+    """Another tool need not write 'sections: []' / 'properties: []' for objects without children."""
+    if isinstance(d, dict):
+        return {k: _drop_empty_lists(v) for k, v in d.items() if not (k in ("sections", "properties") and v == [])}
+    if isinstance(d, list):
+        return [_drop_empty_lists(x) for x in d]
+    return d
+
+
 def _reversed_keys(d):
     if isinstance(d, dict):
         return {k: _reversed_keys(d[k]) for k in reversed(list(d))}
@@ -264,7 +275,7 @@ def check(tier):
         run.layer(k, documents=v)
     run.bounds = {"value_list_length": 2 if tier == "quick" else 3, "max_sections": 4 if tier == "quick" else 5,
                   "deviations": 2 if tier == "quick" else 3, "formats": 2, "entry_pairs": len(ENTRIES) + 2,
-                  "foreign_renderings": 3}
+                  "foreign_renderings": 5}
     par.run_cases(run, "checks.c02", cases, nchunks=par.JOBS * 16)
     return run.finish(reproduce=lambda f: replay(f))
 
